@@ -282,6 +282,62 @@ theorem copyCall_container (res : String → CopyImpl) {n : Nat} {h : Heap} {a :
 theorem copyCall_zero (res : String → CopyImpl) (h : Heap) (v : Val) : copyCall res 0 h v = .error .fuel := by
   simp [copyCall]
 
+/-- the dict that the deepening loop reads back from the new object is the shallow copy of the
+dict the source object holds in the same slot (same entries) -/
+theorem deepen_src (res : String → CopyImpl) {h0 : Heap} {n : Nat}
+    (ih : ∀ h v h' v', Ctx h0 h → Valid h0 v → copyCall res n h v = .ok (h', v') → Basic h0 h v h' v')
+    {h : Heap} {fs : Slots} {h1 : Heap} {fs1 : Slots} (c : Ctx h0 h) (hvfs : ∀ x v, (x, v) ∈ fs → Valid h0 v)
+    (r : SlotsRel (copyCall res n) h fs h1 fs1) {x : String} {d' : Nat} {gs' : Slots}
+    (hl : fs1.lookup x = some (.ref d')) (hd' : h1[d']? = some (.node .dict gs')) :
+    ∃ d, fs.lookup x = some (.ref d) ∧ h0[d]? = some (.node .dict gs') := by
+  have sb := slots_basic ih r c hvfs
+  have c1 : Ctx h0 h1 := ⟨c.c0, c.ext.trans sb.ext, sb.closed⟩
+  obtain ⟨vx, hlx, hvx, hcase⟩ := slots_lookup ih r c hvfs x (.ref d') hl
+  rcases hcase with ⟨hw, hs, chs, hfail⟩ | ⟨hs, he, chs, hok, ehe⟩
+  · -- shared: `copy()` of a dict never raises AttributeError
+    subst hw
+    have hd0 : h0[d']? = some (.node .dict gs') := by
+      rw [← c1.ext.get (hvx d' rfl)]; exact hd'
+    have hds : hs[d']? = some (.node .dict gs') := by
+      rw [chs.ext.get (hvx d' rfl)]; exact hd0
+    cases n with
+    | zero => simp [copyCall] at hfail
+    | succ n => rw [copyCall_container res (.inl rfl) hds] at hfail; cases hfail
+  · have bx := ih hs vx he (.ref d') chs hvx hok
+    cases vx with
+    | imm t =>
+      cases n with
+      | zero => simp [copyCall] at hok
+      | succ n => simp [copyCall] at hok
+    | ref d =>
+      refine ⟨d, hlx, ?_⟩
+      have hdlt := hvx d rfl
+      cases n with
+      | zero => simp [copyCall] at hok
+      | succ n =>
+        -- compare the one-level unfoldings
+        have h1' := bx.same 1
+        have hd'e : he[d']? = some (.node .dict gs') := by
+          rw [← ehe.get (bx.valid d' rfl)]; exact hd'
+        simp only [absF, hd'e] at h1'
+        cases hcd : h0[d]? with
+        | none => simp [hcd] at h1'
+        | some cd =>
+          cases cd with
+          | buf dd => simp [hcd] at h1'
+          | node k gs =>
+            simp only [hcd, Tree.node.injEq] at h1'
+            obtain ⟨hk, _⟩ := h1'
+            subst hk
+            have hds : hs[d]? = some (.node .dict gs) := by
+              rw [chs.ext.get hdlt]; exact hcd
+            rw [copyCall_container res (.inl rfl) hds] at hok
+            simp only [Except.ok.injEq, Prod.mk.injEq, Val.ref.injEq] at hok
+            obtain ⟨rfl, rfl⟩ := hok
+            rw [get_last] at hd'e
+            cases hd'e
+            rfl
+
 /-- the phase of `LandmarkManager.copy` / `LabelledPointUndirectedGraph.copy` after the generic one:
 the dict read back from the new object is the shallow copy of the source's dict, its values are
 copied one by one, and the re-initialised dict is what the new object ends up holding -/
@@ -292,8 +348,6 @@ theorem deepen_inv (res : String → CopyImpl) {h0 : Heap} {n : Nat}
     (e : deepenValues (copyCall res n) x h1 fs1 = .ok (h2, d2)) :
     ∃ d gs hv gs2, fs.lookup x = some (.ref d) ∧ h0[d]? = some (.node .dict gs) ∧
       SlotsRel (copyCall res n) h1 gs hv gs2 ∧ h2 = hv ++ [.node .dict gs2] ∧ d2 = .ref hv.length := by
-  have sb := slots_basic ih r c hvfs
-  have c1 : Ctx h0 h1 := ⟨c.c0, c.ext.trans sb.ext, sb.closed⟩
   simp only [deepenValues] at e
   split at e
   · rename_i d' hl
@@ -303,54 +357,7 @@ theorem deepen_inv (res : String → CopyImpl) {h0 : Heap} {n : Nat}
       · rename_i hv2 gs2 hcv
         simp only [Except.ok.injEq, Prod.mk.injEq] at e
         obtain ⟨rfl, rfl⟩ := e
-        obtain ⟨vx, hlx, hvx, hcase⟩ := slots_lookup ih r c hvfs x (.ref d') hl
-        -- the slot read back is the shallow copy of the source dict
-        have hsrc : ∃ d, vx = .ref d ∧ h0[d]? = some (.node .dict gs') := by
-          rcases hcase with ⟨hw, hs, chs, hfail⟩ | ⟨hs, he, chs, hok, ehe⟩
-          · -- shared: `copy()` of a dict never raises AttributeError
-            subst hw
-            have hd0 : h0[d']? = some (.node .dict gs') := by
-              rw [← c1.ext.get (hvx d' rfl)]; exact hd'
-            have hds : hs[d']? = some (.node .dict gs') := by
-              rw [chs.ext.get (hvx d' rfl)]; exact hd0
-            cases n with
-            | zero => simp [copyCall] at hfail
-            | succ n => rw [copyCall_container res (.inl rfl) hds] at hfail; cases hfail
-          · have bx := ih hs vx he (.ref d') chs hvx hok
-            cases vx with
-            | imm t =>
-              cases n with
-              | zero => simp [copyCall] at hok
-              | succ n => simp [copyCall] at hok
-            | ref d =>
-              refine ⟨d, rfl, ?_⟩
-              have hdlt := hvx d rfl
-              cases n with
-              | zero => simp [copyCall] at hok
-              | succ n =>
-                -- compare the one-level unfoldings
-                have h1' := bx.same 1
-                have hd'e : he[d']? = some (.node .dict gs') := by
-                  rw [← ehe.get (bx.valid d' rfl)]; exact hd'
-                simp only [absF, hd'e] at h1'
-                cases hcd : h0[d]? with
-                | none => simp [hcd] at h1'
-                | some cd =>
-                  cases cd with
-                  | buf dd => simp [hcd] at h1'
-                  | node k gs =>
-                    simp only [hcd, Tree.node.injEq] at h1'
-                    obtain ⟨hk, _⟩ := h1'
-                    subst hk
-                    have hds : hs[d]? = some (.node .dict gs) := by
-                      rw [chs.ext.get hdlt]; exact hcd
-                    rw [copyCall_container res (.inl rfl) hds] at hok
-                    simp only [Except.ok.injEq, Prod.mk.injEq, Val.ref.injEq] at hok
-                    obtain ⟨rfl, rfl⟩ := hok
-                    rw [get_last] at hd'e
-                    cases hd'e
-                    rfl
-        obtain ⟨d, rfl, hd0⟩ := hsrc
+        obtain ⟨d, hlx, hd0⟩ := deepen_src res ih c hvfs r hl hd'
         exact ⟨d, gs', hv2, gs2, hlx, hd0, copyValues_rel _ _ _ _ hcv, rfl, rfl⟩
       · cases e
     · cases e
